@@ -209,7 +209,13 @@ func decodeBatchRecords(batch []byte, topic string, partition int32) ([]Record, 
 
 	recordsData := batch[recordBatchHeaderLen:]
 	reader := bytes.NewReader(recordsData)
-	records := make([]Record, 0, recordCount)
+	// The count comes from the batch header; a record takes at least one byte,
+	// so never preallocate for more records than the payload can hold.
+	capHint := int(recordCount)
+	if capHint > len(recordsData) {
+		capHint = len(recordsData)
+	}
+	records := make([]Record, 0, capHint)
 	for i := int32(0); i < recordCount; i++ {
 		record, err := decodeRecord(reader, baseOffset, firstTimestamp, topic, partition)
 		if err != nil {
